@@ -194,6 +194,9 @@ def spurious_families(pools=(0, 1)):
     for p in pools:
         out.append(make('spur_FDdet_S_p%d' % p, 1, p, 1, [FD(1, aw=[1], then='detach'), S(1)], [SPUR(1), SPUR(1), FIRE(1)]))
         out.append(make('spur_FDaw_p%d' % p, 1, p, 1, [FD(1, aw=[1], then='await')], [SPUR(1), FIRE(1), SPUR(1)]))
+        # a stale wake-up arrives while a try_sync / immediate sync closure is running on the (otherwise idle) queue
+        out.append(make('spur_during_T_p%d' % p, 1, p, 1, [FD(1, aw=[1], then='await'), T(1), D(1), S(1), T(1)], [FIRE(1), SPUR(1)]))
+        out.append(make('spur_during_S_p%d' % p, 1, p, 1, [FD(1, aw=[1], then='await'), S(1), D(1), S(1)], [FIRE(1), SPUR(1)]))
     for p in (1, 2):
         out.append(make('spur_FDdet_D_S_p%d' % p, 1, p, 1, [FD(1, aw=[1], then='detach'), D(1)], [SPUR(1), FIRE(1)], [S(1)]))
         out.append(make('spur_FD2aw_p%d' % p, 1, p, 2, [FD(1, aw=[1, 2], then='await')], [FIRE(1), SPUR(1), FIRE(2)]))
@@ -276,12 +279,17 @@ def suspend_families(pools=(0, 1)):
     for p in pools:
         out.append(make('SU_D_RS_S_p%d' % p, 1, p, 0, [SU(1, then='await', label='s'), D(1), RS('s'), S(1)]))
         out.append(make('D_SU_AW_D_DRS_S_p%d' % p, 1, p, 0, [D(1), SU(1, label='s'), AW('s'), D(1), DRS('s')], [S(1)]))
+    out.append(make('SU_DR_D_S_p0', 1, 0, 0, [SU(1, label='s'), DR('s'), D(1), S(1)]))
     for p in (1, 2):
         out.append(make('SU_RS_Sother_p%d' % p, 1, p, 0, [D(1), SU(1, then='await', label='s'), D(1), RS('s')], [S(1), T(1)]))
         out.append(make('SU_FD_RS_p%d' % p, 1, p, 1, [SU(1, then='await', label='s'), FD(1, aw=[1], then='detach'), RS('s'), S(1)], [FIRE(1)]))
         # a later future is polled once while the queue is still pending: the poll drains up to the suspension and parks the queue
         out.append(make('SU_FD_PO_AW_RS_DR_p%d' % p, 1, p, 0, [D(1), SU(1, label='s'), FD(1, label='f'), D(1), PO('f'), AW('s'), RS('s'), DR('f')]))
         out.append(make('SU_FD_PO_AW_DRS_p%d' % p, 1, p, 0, [SU(1, label='s'), FD(1, label='f'), D(1), PO('f'), AW('s'), DRS('s')], [T(1)]))
+        # the future returned by suspend() is dropped without having delivered the resumer: that resumes the queue
+        out.append(make('SU_DR_D_S_p%d' % p, 1, p, 0, [SU(1, label='s'), DR('s'), D(1), S(1)]))
+        out.append(make('D_SU_PO_DR_D_p%d' % p, 1, p, 0, [D(1), SU(1, label='s'), PO('s'), DR('s'), D(1), S(1)], [T(1)]))
+        out.append(make('SU_D_DR_vs_S_p%d' % p, 1, p, 0, [SU(1, label='s'), D(1), DR('s')], [S(1)]))
         # a sync caller runs the suspension (the queue waits for its thread to be unparked) while a queue waker retained from an earlier
         # future operation is woken again
         out.append(make('FD_SUsync_SPUR_D_RS_p%d' % p, 1, p, 1, [S(1)], [FD(1, aw=[1], then='detach'), FIRE(1), SU(1, then='await', label='s'), SPUR(1), D(1), RS('s'), S(1)]))
@@ -380,7 +388,7 @@ def for_property(prop, tier, seed=0):
             fam += three_thread((1, 2))
     elif prop == 'C04':
         fam = core_mix((0, 1) if quick else (0, 1, 2)) + [s for s in future_mix((0, 1) if quick else (0, 1, 2)) if '_S_' in s['name'] or 'FDaw' in s['name']]
-        fam += three_thread((0,))[:1] + parked_drainer_families()[1:]
+        fam += three_thread((0,))[:1] + parked_drainer_families()[1:] + [s for s in spurious_families((0, 1)) if 'during_S' in s['name']]
         if not quick:
             fam += three_thread((0, 1, 2))
     elif prop == 'C06':
@@ -390,7 +398,8 @@ def for_property(prop, tier, seed=0):
     elif prop == 'C07':
         fam = future_mix((1,) if quick else (1, 2)) + [make('FDaw_Fire_p0', 1, 0, 1, [FD(1, aw=[1], then='await'), FIRE(1)][:1], [FIRE(1)])]
     elif prop == 'C09':
-        fam = [s for s in core_mix((0, 1) if quick else (0, 1, 2)) + future_mix((1,) if quick else (1, 2)) if any(op['k'] == 'try_sync' for op in scenlib.flatten(s).values())]
+        fam = [s for s in core_mix((0, 1) if quick else (0, 1, 2)) + future_mix((1,) if quick else (1, 2)) + spurious_families((0, 1) if quick else (0, 1, 2))
+               if any(op['k'] == 'try_sync' for op in scenlib.flatten(s).values())]
     elif prop == 'C10':
         fam = pool_families()
     elif prop == 'C17':
